@@ -41,7 +41,7 @@ DECORATED = [  # shapes that make ResourcePath.get raise KeyError
     ("get", "/files/{name}.json", ["name"], []),
     ("delete", "/files/{name}.json", ["name"], []),
 ]
-STATUSES = [None, 200, 201, 204, 301, 400, 404, 409, 500]
+STATUSES = [None, 200, 201, 204, 301, 400, 404, 409, 410, 500]
 IDS = ["1", "2", "12", 1, ""]
 
 KF_PARENT = "C18:use_after_free:tests-the-DELETE's-parent's-response"
@@ -365,6 +365,60 @@ def prefix_corr(chk, rng, n):
                           "_is_prefix_operation differs from the reference same-resource relation", {"in": a, "impl": impl})
 
 
+def partial_link_runs(chk):
+    """The "all parameters came from a link" premise of ensure_resource_availability, end to end: the real stateful
+    phase on an API whose link out of a successful POST fills only ONE of the two path parameters of its target.  The other
+    one is generated, the server answers 404 for it: nothing about the created resource follows from that, so no
+    'Resource is not available after creation' may be reported.  Control: a link that fills every parameter must report it."""
+    from flask import Flask, jsonify
+    from harness import engine_common as E
+    from schemathesis.engine.phases import PhaseName
+    from schemathesis.specs.openapi.checks import ensure_resource_availability
+    for full in (False, True):
+        app = Flask("c18-link")
+
+        @app.route("/users", methods=["POST"])
+        def mk():
+            return jsonify({"id": 7, "item": 3}), 201
+
+        @app.route("/users/<uid>/items/<iid>", methods=["GET"])
+        def rd(uid, iid):
+            return jsonify({}), 404
+
+        link_params = {"userId": "$response.body#/id"}
+        if full:
+            link_params["itemId"] = "$response.body#/item"
+        raw = {"openapi": "3.0.2", "info": {"title": "t", "version": "1"}, "paths": {
+            "/users": {"post": {"operationId": "mk", "responses": {"201": {"description": "ok", "links": {
+                "L": {"operationId": "rd", "parameters": link_params}}}}}},
+            "/users/{userId}/items/{itemId}": {"get": {"operationId": "rd", "parameters": [
+                {"name": "userId", "in": "path", "required": True, "schema": {"type": "integer"}},
+                {"name": "itemId", "in": "path", "required": True, "schema": {"type": "integer"}}],
+                "responses": {"200": {"description": "ok"}, "404": {"description": "no"}}}}}}
+        with E.Server(app) as srv:
+            schema = E.load_schema(srv.url, raw=raw)
+            cfg = E.engine_config(phases=[PhaseName.STATEFUL_TESTING], max_examples=8, stateful_step_count=3, seed=chk.seed + 3,
+                                  checks=[ensure_resource_availability])
+            evs = E.run_engine(schema, cfg)
+        reported = []
+        for e in evs:
+            if type(e).__name__ == "ScenarioFinished":
+                for nodes in e.recorder.checks.values():
+                    for n in nodes:
+                        if n.failure_info is not None:
+                            reported.append(n.failure_info.failure.title)
+        chk.case("era:partial-link:engine-run", key=[full], nontrivial=True,
+                 sample={"link_fills_all_parameters": full, "reported": sorted(set(reported))})
+        chk.feature(f"era:partial-link:full={full}:reported={bool(reported)}")
+        if not full and reported:
+            chk.violation("C18:ensure_resource_availability:reported-although-a-parameter-did-not-come-from-the-link",
+                          f"the link fills userId only, itemId is generated, the API answers 404: reported {sorted(set(reported))}",
+                          {"document": raw, "link_fills_all_parameters": full})
+        if full and not reported:
+            chk.notes.append("era:partial-link: the control run (link fills every parameter, 404) reported nothing - the "
+                             "stateful phase may not have followed the link in this run")
+
+
 def run(chk):
     rng = chk.rng
     world = World(OPS)
@@ -395,6 +449,7 @@ def run(chk):
     trees = [gen_tree(rng, w2, rng.randrange(2, 5), ids=["1", "2"]) for _ in range(chk.budget(150, 1500))]
     judge(chk, w2, trees, "decorated", variant)
     prefix_corr(chk, rng, chk.budget(3000, 40000))
+    partial_link_runs(chk)
     chk.exhaustive = False
     chk.notes.append(f"exhaustive3: all {len(ex)} three-node trees over ops {ops_subset}")
 
